@@ -210,7 +210,9 @@ fn text_char(t: &mut Tape, ascii_only: bool) -> Vec<u8> {
     match k {
         0 => vec![t.range(0x21, 0x7e) as u8],
         1 => vec![b' '],
-        2 => vec![*t.pick(&[b'\t', b'\n', 0u8, 0x7f, 0x0b])],
+        // control characters, with the neighbours of CR, LF and SP (0x0C/0x0E, 0x0B/0x09, 0x1F/0x21) that word-at-a-time
+        // byte searches tend to confuse with them
+        2 => vec![*t.pick(&[b'\t', b'\n', 0u8, 0x7f, 0x0b, 0x0c, 0x0c, 0x0e, 0x1f, 0x21, 0x01, 0x1b])],
         _ => {
             let c = *t.pick(&['\u{e9}', '\u{df}', '\u{20ac}', '\u{4e2d}', '\u{1f600}', '\u{10348}', '\u{7ff}', '\u{800}', '\u{ffff}']);
             c.to_string().into_bytes()
@@ -256,6 +258,12 @@ pub fn gen_unknown_text(t: &mut Tape, ascii_only: bool, max: usize) -> Vec<u8> {
             for _ in 0..n {
                 out.extend(text_char(t, ascii_only));
             }
+        }
+    }
+    // one text in eight ends (right before the CR) in one to three control bytes next to CR / LF / SP in value
+    if t.chance(1, 8) {
+        for _ in 0..t.usize_in(1, 3) {
+            out.push(*t.pick(&[0x0cu8, 0x0c, 0x0e, 0x0b, 0x09, 0x1f, 0x21, 0x0a]));
         }
     }
     while out.len() > max {
@@ -619,14 +627,14 @@ pub fn gen_v1_mutant(t: &mut Tape) -> (Vec<u8>, &'static str) {
             label = "byte-replace";
             let mut line = p.render();
             let at = t.below(line.len() as u32) as usize;
-            line[at] = *t.pick(&[b' ', b'\r', b'\n', 0, b'+', b'-', b'0', b':', b'.', 0xff, b'\t']);
+            line[at] = *t.pick(&[b' ', b'\r', b'\n', 0, b'+', b'-', b'0', b':', b'.', 0xff, b'\t', 0x0c, 0x0e, 0x8d, 0x8a, 0xa0, 0x0b]);
             return (line, label);
         }
         18 => {
             label = "byte-insert";
             let mut line = p.render();
             let at = t.below(line.len() as u32 + 1) as usize;
-            line.insert(at, *t.pick(&[b' ', b'\r', b'\n', 0, b'+', b'-', b'0', b':', b'.', 0xff, b'\t', b'1']));
+            line.insert(at, *t.pick(&[b' ', b'\r', b'\n', 0, b'+', b'-', b'0', b':', b'.', 0xff, b'\t', b'1', 0x0c, 0x0e, 0x8d, 0x8a, 0xa0, 0x0b]));
             return (line, label);
         }
         19 => {
